@@ -600,3 +600,42 @@ Proof.
   - intros px py x y xs ys Pa Pb F N. rewrite Pa, Pb. apply lex_p_first_non_equal; assumption.
   - apply lex_p_all_equal.
 Qed.
+
+(* ---- discriminant order across variants, lexicographic order within one (C04_order_sentence) ---- *)
+Theorem lex_t_first_non_equal :
+  forall (fval : Type) (fcmp : fval -> fval -> comparison) (px py : list fval) (x y : fval) (xs ys : list fval),
+    Forall2 (fun a b => fcmp a b = Datatypes.Eq) px py -> fcmp x y <> Datatypes.Eq ->
+    lex_t fcmp (px ++ x :: xs) (py ++ y :: ys) = fcmp x y.
+Proof.
+  intros fval fcmp px py x y xs ys F N. induction F as [|a b px py E F IH]; cbn [app lex_t].
+  - destruct (fcmp x y); try reflexivity. exfalso. apply N. reflexivity.
+  - rewrite E. exact IH.
+Qed.
+Theorem lex_t_all_equal :
+  forall (fval : Type) (fcmp : fval -> fval -> comparison) (xs ys : list fval),
+    Forall2 (fun a b => fcmp a b = Datatypes.Eq) xs ys -> lex_t fcmp xs ys = Datatypes.Eq.
+Proof.
+  intros fval fcmp xs ys F. induction F as [|a b xs ys E F IH]; cbn [lex_t]; [reflexivity|]. rewrite E. exact IH.
+Qed.
+Theorem spec_cmp_order :
+  forall (fval : Type) (fpcmp : fval -> fval -> option comparison) (fcmp : fval -> fval -> comparison)
+         (it : item) (re : rust_enum) (a b : value fval),
+    (v_idx a <> v_idx b ->
+       spec_cmp fcmp it re a b = Z.compare (Spec.disc_of re a) (Spec.disc_of re b) /\
+       (incomparable_value it a = false -> incomparable_value it b = false ->
+        spec_pcmp fpcmp it re a b = Some (Z.compare (Spec.disc_of re a) (Spec.disc_of re b)))) /\
+    (forall d, v_idx a = v_idx b -> variant_of it a = Some d ->
+       (forall px py x y xs ys,
+          project d Ord a = px ++ x :: xs -> project d Ord b = py ++ y :: ys ->
+          Forall2 (fun u v => fcmp u v = Datatypes.Eq) px py -> fcmp x y <> Datatypes.Eq ->
+          spec_cmp fcmp it re a b = fcmp x y) /\
+       (Forall2 (fun u v => fcmp u v = Datatypes.Eq) (project d Ord a) (project d Ord b) ->
+          spec_cmp fcmp it re a b = Datatypes.Eq)).
+Proof.
+  intros fval fpcmp fcmp it re a b. split.
+  - intros N. apply Nat.eqb_neq in N. unfold spec_cmp, spec_pcmp. rewrite N. split; [reflexivity|].
+    intros Ia Ib. rewrite Ia, Ib. reflexivity.
+  - intros d E Hd. unfold spec_cmp. rewrite E, Nat.eqb_refl, Hd. split.
+    + intros px py x y xs ys Pa Pb F N. rewrite Pa, Pb. apply lex_t_first_non_equal; assumption.
+    + apply lex_t_all_equal.
+Qed.
